@@ -27,6 +27,20 @@ UNITS = {
 }
 
 KANI_GROUPS = {
+    "methods": dict(
+        src="kani/methods.rs", append_to="src/methods/mod.rs", module="methods::verif_methods",
+        harnesses=[
+            dict(name="vk_highest_l3", kind="bounded(L=3, 5 steps)", timeout=600, props=["C04"], witness_units=["highest_lowest"]),
+            dict(name="vk_lowest_l3", kind="bounded(L=3, 5 steps)", timeout=600, props=["C04"], witness_units=["highest_lowest"]),
+            dict(name="vk_highest_lowest_delta_l3", kind="bounded(L=3, 5 steps)", timeout=600, props=["C04"], witness_units=["highest_lowest"]),
+            dict(name="vk_highest_index_l3", kind="bounded(L=3, 5 steps)", timeout=600, props=["C04"], witness_units=["highest_lowest_index"]),
+            dict(name="vk_lowest_index_l3", kind="bounded(L=3, 5 steps)", timeout=600, props=["C04"], witness_units=["highest_lowest_index"]),
+            dict(name="vk_smm_l3", kind="bounded(L=3, 5 steps)", timeout=900, props=["C04"]),
+            dict(name="vk_smm_l3_guarded", kind="bounded(L=3, 5 steps)", timeout=900, props=["C04"]),
+            dict(name="vk_cross_above_under", kind="complete", timeout=600, props=["C14"]),
+            dict(name="vk_cross_swap_negates", kind="complete", timeout=600, props=["C14"]),
+            dict(name="vk_cross_two_steps", kind="complete", timeout=600, props=["C14"]),
+        ]),
     "action": dict(
         src="kani/action.rs", append_to="src/core/action.rs", module="core::action::verif_action",
         harnesses=[dict(name=n, kind="complete", timeout=t, tier=tier) for (n, t, tier) in [
@@ -87,6 +101,64 @@ PROPS["C16"] = dict(
            "f64 bit pattern as symbolic values), so each passing harness is a complete bit-precise proof, not a bounded check."),
     assumptions=["IEEE-754 semantics of CBMC's float theory (round-to-nearest-even) match the target's"],
     technique="Kani/CBMC loop-free harnesses over full symbolic domains on the real functions (complete, bit-precise)",
+)
+
+PROPS["C04"] = dict(
+    verus=["highest_lowest", "highest_lowest_index", "window"], kani=["methods"],
+    claim=("Highest, Lowest, HighestLowestDelta, HighestIndex and LowestIndex are verified (Verus, unbounded) against 'the result is an element of "
+           "the window and none is larger/smaller' and 'the age of the newest extremal element', with the rescan loops desugared from the real fold "
+           "chains; only comparisons and bit-equality touch the values, so the order model is exact. SMM (and the median in MedianAbsDev) is NOT "
+           "under a deductive contract: it is checked by a bounded Kani harness (window 3, 5 symbolic inputs) reported under bounded_checks."),
+    assumptions=["order model: comparisons on reals, bit patterns equal iff value and zero-sign equal (bits_axiom); NaN/inf excluded (the methods reject or assert them)",
+                 "SMM: bounded stand-in only (L=3, 5 steps); fn-pointer recursion and SliceIndex-generic `get` were not brought into Verus"],
+)
+
+METHOD_UNITS = ["sma", "simple_window", "wma", "vwma", "st_dev", "mean_abs_dev", "compose_ma", "ema", "derived_window",
+                "candle_methods", "highest_lowest", "highest_lowest_index"]
+ALL_VERUS = ["window", "ohlcv"] + METHOD_UNITS
+
+PROPS["C08"] = dict(
+    verus=ALL_VERUS,
+    claim=("Per method under contract: new(p, v) establishes the constant state for v (fresh: window view == [v; n] / recurrences at their fixed "
+           "point) and a proof fn <method>_const_step shows that next(v) from a constant state returns the constant output and stays in that state; "
+           "one inductive step, verified over the contracts (exact for selections and indices, equality over reals for arithmetic outputs). "
+           "Prefix invariance follows because k leading copies leave the same abstract state as new."),
+    assumptions=[REALS, "indicator-level constancy is covered only for indicators under contract (see C05)",
+                 "methods without a *_const_step lemma in coverage.samples/functions are not covered"],
+)
+PROPS["C10"] = dict(
+    verus=ALL_VERUS,
+    claim=("Every panic site of the extracted functions (assert!/debug_assert!, unwrap, integer overflow, slice indexing, push on an empty window) "
+           "is a proof obligation. For each method under contract `new` is verified for EVERY parameter value (its precondition new_req is `true`; "
+           "for WMA/HMA it only excludes lengths >= 2^32 that exist under period_type_u64) to return Err for the documented too-small lengths and "
+           "otherwise Ok with the invariant, and `next` is verified panic-free from the invariant alone for every input."),
+    assumptions=[REALS + " (a float division by zero is not a panic)", "indicator validate/init and string parsing are not covered here yet",
+                 "debug assertions are treated as enabled"],
+)
+PROPS["C19"] = dict(
+    verus=["window"], kani=["window"],
+    claim=("cfg!(feature = \"unsafe_performance\") is replaced by an unconstrained boolean inside the same extracted functions (rule R6), so every "
+           "Window/WindowIterator/ReversedWindowIterator postcondition is proved for both code paths (identical observable results) and every "
+           "get_unchecked / get_unchecked_mut carries its in-bounds precondition as an obligation discharged from the representation invariant, "
+           "for all states. The SMM half of the feature (smm::get, ptr::copy) is not under contract."),
+    assumptions=["the std contracts of the unchecked slice operations themselves (slice_get_unchecked*)", "SMM's unsafe path is not covered"],
+)
+PROPS["C20"] = dict(
+    verus=ALL_VERUS, variants=[("PT_U16",), ("PT_U64",)], thorough_variants=[("PT_U32",)],
+    claim=("Every Verus unit is re-verified with PeriodType bound to u16 and u64 (u32 in the thorough tier): the same contracts (definitional "
+           "equalities, panic-freedom, casts without truncation) hold for window lengths beyond 255 with no bound; results for parameters that fit "
+           "the default type coincide in the model because both builds meet the same functional postcondition."),
+    assumptions=[REALS, "value_type_f32 changes only rounding, which the real model does not see: not decided",
+                 "WMA/HMA: lengths >= 2^32 (period_type_u64 only) are excluded by the constructor precondition (usize product overflow)"],
+)
+PROPS["C07"] = dict(
+    verus=ALL_VERUS,
+    claim=("Every contract is an inductive invariant: next's postcondition is proved from ANY state satisfying inv, so it holds after arbitrarily "
+           "many steps; for finite-window methods step depends only on the abstract window view, so an instance with a long past behaves like a "
+           "fresh one primed with the last window. Internal counters: HighestIndex/LowestIndex `index += 1` is proved overflow-free from index < length. "
+           "The reversal detectors' absolute PeriodType positions are not under contract yet."),
+    assumptions=[REALS + "; in particular the growth of rounding error in running sums over 10^7 steps is NOT decided",
+                 "reversal detectors (saturating position counter) not covered yet"],
 )
 
 NOT_BUILT = {}
